@@ -28,7 +28,7 @@ ASSUMPTIONS = ["buffer ids are opaque: the model only requires an id not to "
                "an unbuffered packet-in carries the whole frame whatever "
                "max_len / miss_send_len say"]
 REQUIRED = ["packet_ins", "buffered", "unbuffered_pool_full", "released_by_packet_out",
-            "released_by_flow_mod", "flow_mod_modify_with_buffer", "rebuffered_during_release", "stale_uses",
+            "released_by_flow_mod", "released_by_rejected_flow_mod", "flow_mod_modify_with_buffer", "rebuffered_during_release", "stale_uses",
             "bogus_uses", "truncated",
             "ids_reused_after_release"]
 TIMEOUT = {"quick": 900, "thorough": 7200}
@@ -169,9 +169,9 @@ def run_history (case, rep):
                                            [p for p, _ in out]))
         return True
       if not judge_pin(pins[0], raw, in_port, reason, limit): return True
-    elif k in ("po", "fm", "stale", "bogus"):
+    elif k in ("po", "fm", "fmrej", "stale", "bogus"):
       acts = ACTS[op[2] % len(ACTS)]
-      if k in ("po", "fm"):
+      if k in ("po", "fm", "fmrej"):
         if not outstanding: continue
         ids = sorted(outstanding)
         bid = ids[op[1] % len(ids)]
@@ -185,7 +185,17 @@ def run_history (case, rep):
         bid = [0, 1 << 31, pool + 1, 0x7fffffff, 1000][op[1] % 5]
         if bid in outstanding: continue
         rep.count("bogus_uses")
-      if k == "fm":
+      if k == "fmrej":
+        # a flow_mod that names the buffer but whose entry the switch refuses
+        # (it overlaps an installed entry and asks for the overlap check, or
+        # asks for an emergency entry): the id has been used all the same
+        m = dict(ALLM); m["in_port"] = 59000 + op[1] % 7
+        m["wildcards"] = OM.FW_ALL & ~OM.FW_IN_PORT
+        raw_msg = ofwire.enc_message("flow_mod", dict(
+          xid=xid, match=m, cookie=0, command=0, idle_timeout=0,
+          hard_timeout=0, priority=10, buffer_id=bid, out_port=0xffff,
+          flags=2 if op[1] % 2 else 4, actions=acts))
+      elif k == "fm":
         # the command varies: ADD of a new entry, MODIFY / MODIFY_STRICT of an
         # entry installed by an earlier step (only its actions change), MODIFY
         # that matches nothing (acts as ADD); the buffer applies to all of them
@@ -222,7 +232,8 @@ def run_history (case, rep):
         raw, in_port = outstanding.pop(bid)
         released.append(bid)
         nt = True
-        rep.count("released_by_flow_mod" if k == "fm" else "released_by_packet_out")
+        rep.count("released_by_rejected_flow_mod" if k == "fmrej" else
+                  "released_by_flow_mod" if k == "fm" else "released_by_packet_out")
         exp = []
         to_ctl = []
         for spec, fr, ml in OA.run(raw, acts):
@@ -230,6 +241,30 @@ def run_history (case, rep):
           if isinstance(e, list): exp += [(p, fr) for p in e]
           elif e == "controller": to_ctl.append((fr, ml))
         pins = [m for m in msgs if m["name"] == "packet_in"]
+        if k == "fmrej":
+          # whether the packet of a refused flow_mod is still sent through the
+          # actions or just discarded is not judged (the reference switch
+          # discards it, this one sends it); that the id is spent is - the
+          # pool accounting and the stale uses that follow observe it
+          if not [m for m in msgs if m["name"] == "error"]:
+            fire("flow_mod that must be refused was not answered with an error",
+                 "flags %d" % (2 if op[1] % 2 else 4)); return True
+          if not out and not pins:
+            pass
+          elif sorted(out) != sorted(exp) or len(pins) != len(to_ctl):
+            fire("refused flow_mod with a buffer emitted something else than "
+                 "the stored packet through the given actions",
+                 "emitted %r expected %r or nothing" %
+                 ([(p, b[14:18].hex()) for p, b in out],
+                  [(p, b[14:18].hex()) for p, b in exp]))
+            return True
+          else:
+            for m, (fr, ml) in zip(pins, to_ctl):
+              if not judge_pin(m, fr, in_port, 1, ml, releasing=1): return True
+          if len(outstanding) > pool:
+            fire("more packets stored than the advertised buffer count",
+                 "%d > %d" % (len(outstanding), pool)); return True
+          continue
         if len(pins) != len(to_ctl):
           fire("output to the controller while using a buffer did not produce "
                "a packet-in", "%d packet-ins, %d expected" % (len(pins), len(to_ctl)))
@@ -288,8 +323,10 @@ def gen (rng, n, maxlen):
                     rng.randrange(3)])
       elif r < 0.66:
         ops.append(["po", rng.randrange(8), rng.randrange(len(ACTS))])
-      elif r < 0.76:
+      elif r < 0.73:
         ops.append(["fm", rng.randrange(8), rng.randrange(len(ACTS))])
+      elif r < 0.76:
+        ops.append(["fmrej", rng.randrange(8), rng.randrange(len(ACTS))])
       elif r < 0.85:
         ops.append(["stale", rng.randrange(8), rng.randrange(len(ACTS))])
       elif r < 0.93:
